@@ -298,11 +298,15 @@ Definition okey_refresh (o : order) (id : N) : M unit :=
   end.
 
 (* ---- View ---- *)
+(* self.settings[f]["_order_<id(o)>"] = o.generate(f)   (fixes/C43-stale-order-key.diff: always regenerate) *)
+Definition regen (o : order) (id : N) : M unit :=
+  f <- gets (fun s => attr s id) ;;                        (* right-hand side first *)
+  c <- settings_getitem id ;;
+  modify (fun s => set_settings (sset (settings s) id (cset o (generate o f) c)) s).
+
 Definition _base_add (id : N) : M unit :=
   o <- gets okey ;;
-  k <- okey_call o id ;;                                   (* right-hand side first *)
-  c <- settings_getitem id ;;
-  modify (fun s => set_settings (sset (settings s) id (cset o k c)) s) ;;;
+  regen o id ;;;
   _view_add id.
 
 Definition _refilter : M unit :=
@@ -320,6 +324,7 @@ Definition set_reversed (b : bool) : M unit :=
 Definition set_order (o : order) : M unit :=
   modify (set_okey o) ;;;
   ids <- gets (fun s => map snd (view s)) ;;
+  forM ids (regen o) ;;;                                   (* keys cached for this order may be outdated *)
   kv <- mapM (fun id => k <- okey_call o id ;; ret (k, id)) ids ;;
   modify (set_view (sl_sorted kv)).
 
